@@ -92,10 +92,14 @@ def linear_schemas(tier: str, constraint: Any = None, fn: str = "linear") -> Lis
 
 def matmul_schemas(tier: str, constraint: Any = None) -> List[Schema]:
     M, K, N = D("M"), D("K"), D("N")
-    return [
+    out = [
         Schema(f"matmul[batch={len(lead)}]", dict(left=P("left", lead + (M, K)), right=P("right", lead + (K, N)), constraint=constraint))
         for lead in LEAD
     ]
+    # mixed ranks (broadcast batch): outside the exact term-count clause of C03, inside C01/C02/C05
+    out.append(Schema("matmul[2-D left x batched right]", dict(left=P("left", (M, K)), right=P("right", (d1, K, N)), constraint=constraint), note="mixed-rank"))
+    out.append(Schema("matmul[batched left x 2-D right]", dict(left=P("left", (d1, M, K)), right=P("right", (K, N)), constraint=constraint), note="mixed-rank"))
+    return out
 
 
 def conv1d_schemas(tier: str, constraint: Any = None) -> List[Schema]:
